@@ -595,12 +595,32 @@ fn c03_sequence(ctx: &mut Ctx, r: &mut Rng, outcomes: &[bool], ep_fixed: Option<
             sink.log.lock().unwrap().script.clear();
             continue;
         }
-        // rule 1b: the one string handed to the sink is THIS call's metric (nothing left over from earlier calls)
-        if let (Ok(e), Some((text, _))) = (&exp, emitted.first()) {
-            if let Err(why) = matches_line(e, text) {
-                ctx.violation("C03", "one-call-one-emit", "text-not-this-metric", format!("the string handed to the sink is not this call's metric: {}", why), trace("emitted text"));
-                sink.log.lock().unwrap().script.clear();
-                continue;
+        // rule 1b: the one string handed to the sink is THIS call's metric - nothing left over from earlier calls.
+        // Judged differentially (how a metric is formatted is C01's business): the same call on a pristine client, made
+        // on a fresh thread (no state of any earlier call, thread-local or not), must produce the same text.
+        // (sampled: 3 in 8 of the calls right after a call that failed or was rejected - that is when something may be
+        // left behind - and 1 in 16 of the others)
+        let after_failure = sig.len() >= 2 && matches!(sig.as_bytes()[sig.len() - 2], b'i' | b'I' | b'r' | b'R');
+        let pick = cvh::rng::mix(&[ctx.case_seed, step as u64]) % 16;
+        if let (true, true, Some((text, _))) = (valid, (after_failure && pick < 6) || pick == 0, emitted.first()) {
+            let (cfg2, sp2) = (cfg.clone(), sp.clone());
+            let fresh = std::thread::spawn(move || {
+                let s2 = RecSink::new();
+                let c2 = build_client(&cfg2, s2.clone(), None);
+                let _ = panics::guard(|| call(&c2, &sp2));
+                s2.emits_from(0).first().map(|(t, _)| t.clone())
+            })
+            .join()
+            .ok()
+            .flatten();
+            ctx.rep.obs("texts_compared_with_a_pristine_client", 1);
+            if let Some(f) = fresh {
+                if &f != text {
+                    let at = f.bytes().zip(text.bytes()).position(|(a, b)| a != b).unwrap_or(f.len().min(text.len()));
+                    ctx.violation("C03", "one-call-one-emit", "text-not-this-metric", format!("the string handed to the sink differs at byte {} from what the same call produces on a pristine client: sink got {:?}, pristine {:?}", at, clip(text, 120), clip(&f, 120)), trace("emitted text"));
+                    sink.log.lock().unwrap().script.clear();
+                    continue;
+                }
             }
         }
         // rule 2: results
